@@ -599,9 +599,11 @@ SWEEP_EXCLUDED = {
     "waituntil", "while", "for", "foreach", "spawn", "terminate",
 }
 CFG_SWEEP = ("class CfgVehicles { class Man { isMan = 1; }; class Car { transportSoldier = 3; }; class Empty {}; }; "
-             "class A { x = 1; s = \"t\"; arr[] = {1,2}; class B { y = 2; }; };")
+             "class A { x = 1; s = \"t\"; arr[] = {1,2}; class B { y = 2; }; }; "
+             # a class whose slot list holds markers of deleted entries next to live ones (count of slots != count of entries)
+             "class D { a = 1; delete b; class E {}; delete F; c = 2; }; class G : A { delete x; z = 3; };")
 TYPE_POOL = {
-    "SCALAR": ["0", "1", "-1", "0.5", "(-0.5)", "3", "2147483648", "1e20", "(1e38 * 10)", "(-1e38 * 10)", "(sqrt -1)", "9999999"],
+    "SCALAR": ["0", "1", "-1", "0.5", "(-0.5)", "3", "2", "4", "5", "2147483648", "1e20", "(1e38 * 10)", "(-1e38 * 10)", "(sqrt -1)", "9999999"],
     "BOOL": ["true", "false"],
     "STRING": ['""', '"a"', '"abc def"', '"%1%2"', '"Car"', '"x"', '"' + "y" * 600 + '"', '"[1,2"', '"A"'],
     "ARRAY": ["[]", "[0]", "[1,2,3]", "[[]]", '["a",1,true]', "[[1,2],[3,4]]", "[objNull]", "[1e20,-1]", "[0,0,0]", '["Car",[0,0,0],[],0,"NONE"]',
@@ -610,7 +612,8 @@ TYPE_POOL = {
     "CODE": ["{}", "{true}", "{1}", "{_x}", "{nil}"],
     "OBJECT": ["objNull", '("Car" createVehicle [0,0,0])', '((createGroup west) createUnit ["Man",[0,0,0],[],0,"NONE"])'],
     "GROUP": ["grpNull", "(createGroup west)"],
-    "CONFIG": ["configNull", "configFile", '(configFile >> "A")', '(configFile >> "A" >> "x")', '(configFile >> "CfgVehicles" >> "Empty")'],
+    "CONFIG": ["configNull", "configFile", '(configFile >> "A")', '(configFile >> "A" >> "x")', '(configFile >> "CfgVehicles" >> "Empty")',
+               '(configFile >> "D")', '(configFile >> "G")', '(configFile >> "D" >> "E")'],
     "SCRIPT": ["scriptNull", "([] spawn {})"],
     "SIDE": ["west", "sideUnknown", "civilian"],
     "NAMESPACE": ["missionNamespace", "uiNamespace"],
@@ -651,6 +654,9 @@ def sweep_cases(rng, registry, per_sig, only=None):
     nu, un, bi = registry
     out, unreachable, excluded = [], [], []
     vt = value_types()
+    # the few signatures over configs always meet every config of the pool (classes with deleted entries, properties, the
+    # null config) with every other operand
+    cap = lambda n, *tys: max(n, 160) if "CONFIG" in tys else n
     for n in nu:
         if n in SWEEP_EXCLUDED:
             excluded.append(("N", n)); continue
@@ -661,7 +667,7 @@ def sweep_cases(rng, registry, per_sig, only=None):
         pr = pool_for(r)
         if not pr:
             unreachable.append(("U", n, r)); continue
-        for v in (pr if len(pr) <= per_sig else rng.sample(pr, per_sig)):
+        for v in (pr if len(pr) <= cap(per_sig, r) else rng.sample(pr, cap(per_sig, r))):
             out.append(("U", n, "-", r, "%s %s" % (n, v), ["dispatch_u", n, vt[v]]))
     for n, l, r in bi:
         if n in SWEEP_EXCLUDED:
@@ -670,7 +676,7 @@ def sweep_cases(rng, registry, per_sig, only=None):
         if not pl or not pr:
             unreachable.append(("B", n, l, r)); continue
         pairs = [(a, b) for a in pl for b in pr]
-        for a, b in (pairs if len(pairs) <= per_sig else rng.sample(pairs, per_sig)):
+        for a, b in (pairs if len(pairs) <= cap(per_sig, l, r) else rng.sample(pairs, cap(per_sig, l, r))):
             out.append(("B", n, l, r, "%s %s %s" % (a, n, b), ["dispatch_b", n, vt[a], vt[b]]))
     return out, unreachable, excluded
 
@@ -763,7 +769,9 @@ def main(replay=None):
         per_sig = 40 if thorough else 1
         sw, unreachable, excluded = sweep_cases(rng, registry, per_sig)
         if not thorough:
-            sw = rng.sample(sw, min(len(sw), 600))
+            keep = [x for x in sw if "CONFIG" in (x[2], x[3])]
+            rest = [x for x in sw if "CONFIG" not in (x[2], x[3])]
+            sw = keep + rng.sample(rest, min(len(rest), 600))
         sw = corpus_sweep + sw
     else:
         sw, unreachable, excluded = sweep, [], []
